@@ -331,7 +331,11 @@ func check(id, tier string) int {
 	}
 	start := time.Now()
 	dir := workRoot()
-	defer os.RemoveAll(dir)
+	if os.Getenv("PBSIM_KEEP") != "" { // for experiments only: keep the work directory (worker binaries)
+		fmt.Fprintln(os.Stderr, "pbsim: keeping", dir)
+	} else {
+		defer os.RemoveAll(dir)
+	}
 
 	plan := p.Quick
 	if tier == "thorough" {
